@@ -29,6 +29,16 @@ static const TSLanguage *dump(const char *id, const char *so, const char *fn, un
   if (!f) { fprintf(stderr, "dlsym %s\n", fn); return NULL; }
   const TSLanguage *l = f();
   unsigned total = l->symbol_count + l->alias_count;
+  // TSLanguage does not store the length of small_parse_table: it is the end of the last group of
+  // the small state that reaches furthest (the list file may pass 0 = unknown)
+  if (small_len == 0) {
+    for (unsigned st = l->large_state_count; st < l->state_count; st++) {
+      unsigned i = l->small_parse_table_map[st - l->large_state_count];
+      unsigned groups = l->small_parse_table[i++];
+      for (unsigned g = 0; g < groups; g++) { unsigned n = l->small_parse_table[i + 1]; i += 2 + n; }
+      if (i > small_len) small_len = i;
+    }
+  }
   fflush(stdout);
   printf("lang %s %u %u %u %u %u %u %u %u\n", id, l->symbol_count, l->alias_count, l->token_count,
          l->state_count, l->large_state_count, l->field_count, small_len, (unsigned)l->keyword_capture_token);
